@@ -153,6 +153,11 @@ def module_source(feat: list[str], pkg: str) -> dict:
         return {"m.py": MODCODE[k].replace("{pkg}", pkg)}
     if kind == "doc" and k.startswith("member-named-like-module-"):
         return {"gadget.py": _named_like(k.rsplit("-", 1)[1])}
+    if kind == "doc" and k == "package-file-declarations-named-like-submodules-numpy":
+        return {"__init__.py": '"""Package doc."""\n\n\ndef helper(a: int) -> int:\n    """Helper of the package file."""\n    return a\n\n\n'
+                               'class widget:\n    """Widget of the package file."""\n\n    def wm(self, q: int) -> int:\n        """Wm doc."""\n        return q\n',
+                "helper.py": '"""Module helper doc."""\n\n\ndef run(a: int) -> int:\n    """Run doc."""\n    return a\n',
+                "widget.py": '"""Module widget doc."""\n\n\ndef run_w(a: int) -> int:\n    """Run w doc."""\n    return a\n'}
     if kind == "doc" and k == "module-named-like-package-numpy":      # pkg/pkg.py next to pkg/__init__.py
         return {"{sub}.py": 'class Thing:\n    """Class doc.\n\n    Parameters\n    ----------\n    a : int\n        The a.\n    """\n\n    def __init__(self, a: int):\n        self.a = a\n\n\n'
                             'def {sub}(a: int) -> int:\n    """Function named like module and package."""\n    return a\n'}
